@@ -108,6 +108,10 @@ def run(vc, pid, tier, sets):
             for v in merged["violations"]:
                 # each model violation names every property it breaks ("C05,C07,C01"); report it under the id being checked
                 props = [x for x in v["property"].split(",") if x]
+                # C08 (a sole owner can take its buffer back / uniqueness is truthful): an ordering or lifetime defect of a
+                # program that contains a uniqueness-gated operation is a defect of that gate
+                if pid == "C08" and ("C06" in props or "C05" in props) and any(o in v.get("desc", "") for o in ("TryIntoMut", "IntoMut", "IntoVec", "MReserve", "MTryReclaim", "MIntoVec", "IsUniqueRef")):
+                    props.append("C08")
                 prop = pid if pid in props else props[0]
                 viols.append({"property": prop, "case": "loom:" + v.get("desc", "")[:200], "msg": "%s | program #%s %s" % (v["msg"], v["program"], v.get("desc", "")),
                               "replay": {"engine": "loom", "env": dict(envx, VERIF_LOOM_ONLY=str(v["program"]))}})
